@@ -1131,6 +1131,10 @@ def classify_accept(task, eff_text, base_eff):
         return 'NEW-struct-member-name-pattern-not-enforced', paths
     if c == 'unknown-property' and task['kind'] == 'trace':
         return 'NEW-trace-object-unknown-property-accepted', paths
+    if task['dialect'] == 3 and task['loc'].startswith('pcx') and c in ('wrong-type', 'class-and-inherit-both'):
+        # config-pre-field-type-expansion looks for `field-type` at the wrong level of
+        # packet-context-field-type-extra-members: partial field types there are never validated
+        return 'NEW-pcx-members-partial-ft-not-validated', paths
     return 'NEW-%s' % c, paths
 
 
@@ -1201,16 +1205,22 @@ def run(ctx):
                           'variant': op.variant, 'loc': loc_kind(op.pos), 'file': op.pos.file, 'kind': op.pos.kind,
                           'path': '/'.join(map(str, op.pos.path)), 'cls': op.pos.cls, 'certain': op.certain})
     generated = len(tasks)
+    all_single = list(tasks)
     budget = ctx.pick(44.0, 540.0) * WORKERS
     tasks = select(tasks, ctx, budget)
     if not ctx.quick:
         for b in good:
             n = opcount[b.name]
+            meta = {(t['base'], t['op']): t for t in all_single}
             for _ in range(150):
                 i, j = ctx.rng.randrange(n), ctx.rng.randrange(n)
+                parts = [{k: meta[(b.name, x)][k] for k in ('constraint', 'variant', 'loc', 'kind', 'cls', 'certain', 'file', 'path')}
+                         for x in (i, j)]
                 tasks.append({'base': b.name, 'dialect': b.dialect, 'op': i, 'pair': (i, j), 'constraint': 'pair',
-                              'variant': '%d+%d' % (i, j), 'loc': 'pair', 'file': '', 'kind': 'pair', 'path': '',
-                              'cls': None, 'certain': False})
+                              'variant': '%s/%s + %s/%s' % (parts[0]['constraint'], parts[0]['variant'],
+                                                            parts[1]['constraint'], parts[1]['variant']),
+                              'loc': 'pair', 'file': '', 'kind': 'pair', 'path': '', 'cls': None, 'certain': False,
+                              'parts': parts})
     step = max(1, len(tasks) // 8)
     for i, t in enumerate(tasks):
         t['id'] = i
@@ -1238,9 +1248,15 @@ def run(ctx):
             dd['rejected'] += 1
         elif oc == 'ok':
             if t['constraint'] == 'pair':
-                # two faults: at least one must reach; judged like a single fault without a class
-                pass
-            key, paths = classify_accept(t, r.get('effective'), base_eff[t['base']])
+                # two faults: classified by its parts (the first part with a finding key wins)
+                key, paths = None, []
+                for part in t['parts']:
+                    k2, paths = classify_accept(dict(t, **part), r.get('effective'), base_eff[t['base']])
+                    if k2 is not None and not k2.startswith('NOTE-'):
+                        key = k2
+                        break
+            else:
+                key, paths = classify_accept(t, r.get('effective'), base_eff[t['base']])
             if key is None:
                 dd['accepted_not_reaching_effective'] += 1
                 cell['accepted_benign'] = cell.get('accepted_benign', 0) + 1
